@@ -76,6 +76,16 @@ def collapseNorm : List String → List String
   | a :: b :: rest => if a = "AND" && b = "AND" then collapseNorm (a :: rest) else a :: collapseNorm (b :: rest)
   | l => l
 
+/-- `{P}.k.j` (atomic row of a nested group) ↦ `{P}.k`; `{P}.k` ↦ itself. The group id ends
+    after the first number behind the last `}.` -/
+def groupOf (id : String) : String :=
+  match (id.splitOn "}.").reverse with
+  | last :: restRev =>
+    if restRev.isEmpty then id else
+    let num := String.ofList (last.toList.takeWhile Char.isDigit)
+    "}.".intercalate restRev.reverse ++ "}." ++ num
+  | [] => id
+
 /-- C06: ids unique, every reference resolves. C05: component linkage mutual with reversed
     operators (modulo the conjunction class). Returns the first problem found. -/
 def tableProblems (groups : List (List ORow)) : List (String × String) := Id.run do
@@ -94,7 +104,9 @@ def tableProblems (groups : List (List ORow)) : List (String × String) := Id.ru
   for (rid, ls) in links do
     for l in ls do
       for t in l.targets do
-        if !(resolves ids t) then probs := ("C06", s!"linkage target {t} of row {rid} resolves to no row") :: probs
+        if !(resolves ids t) then
+          probs := ("C05", s!"linkage cell of row {rid} names {t}, which is no row of the table") ::
+                   ("C06", s!"linkage target {t} of row {rid} resolves to no row") :: probs
         else
           -- mutual: t links back to rid for the same component with reversed operators
           match links.find? (fun p => p.1 = t) with
@@ -104,6 +116,12 @@ def tableProblems (groups : List (List ORow)) : List (String × String) := Id.ru
             if cands.isEmpty then probs := ("C05", s!"row {rid} links to {t} on {l.comp} but {t} does not link back") :: probs
             else if !(cands.any (fun b => collapseNorm (normOps b.ops) = collapseNorm (normOps l.ops.reverse))) then
               probs := ("C05", s!"operators between {rid} and {t} on {l.comp} are not mirror images: {l.ops} vs {cands.map (·.ops)}") :: probs
+  -- every nested row group `{parent}.k` is referenced from some row's reference cell
+  let refCells := rows.flatMap fun r => r.filterMap fun (k, v) => if sEnds k "-Ref" then some v else none
+  let refTokens := refCells.flatMap fun v => (v.splitOn ",").map sTrim
+  for gid in (ids.filter (fun i => sStarts i "{")).map groupOf |>.eraseDups do
+    if !(refTokens.any (fun t => t = gid)) then
+      probs := ("C06", s!"nested row group {gid} is referenced from no row") :: probs
   -- statement-level linkage targets
   for r in rows do
     let v := cell r "Logical Linkage (Statements)"
@@ -135,7 +153,7 @@ end Drv
 namespace Drv
 open Lean IGVerif
 
-def idPoolTab : Array String := #["123", "7", "a.b", "S.1.2", "x9", "0", "AB12cd"]
+def idPoolTab : Array String := #["123", "7", "a.b", "S.1.2", "x9", "0", "AB12cd", "Sec. 4 \"Records\"", "it's", "7|a", "§ 205.2(b)"]
 
 /-- statements for the tabular family: simple with combinations, supported nesting, pairs -/
 def genTabStmt (i : Nat) : G (Stmt × String) := do
